@@ -329,6 +329,37 @@ func (c14) Run(plan interface{}, schedSeed uint64, replay []simrt.Choice, lenien
 			}
 			if errSend >= 0 && errSend < lower {
 				order = "error was queued before the package"
+			} else {
+				// Was a package already waiting in the queue when the receive that returned the error was CALLED?
+				// Then no random choice is involved: a receive must hand out what is queued before it looks at errors.
+				var errSeq, callSeq = -1, -1
+				delivered := 0
+				for _, r := range again.Recs {
+					if r.Err != "" {
+						errSeq = r.Seq
+						break
+					}
+					if r.Type != "" {
+						delivered++
+					}
+				}
+				for _, e := range again.Out.Log {
+					if e.Seq < errSeq && !strings.HasPrefix(e.Task, "go@") && e.Op == "rlock" && strings.Contains(Sites[e.Site].Func, "(*Channel).NextPackage") {
+						callSeq = e.Seq
+					}
+				}
+				queuedAtCall := 0
+				for _, e := range again.Out.Log {
+					if e.Seq >= callSeq || !strings.HasPrefix(e.Task, "go@") {
+						continue
+					}
+					if (e.Op == "send" || (e.Op == "select" && strings.Contains(e.Info, "(send)"))) && !strings.Contains(Sites[e.Site].Func, "(*Conn).ReadFrom") {
+						queuedAtCall++
+					}
+				}
+				if errSeq >= 0 && callSeq >= 0 && queuedAtCall > delivered {
+					order = "a package was already queued when the receive was called"
+				}
 			}
 			v.Violate("error-before-packages", "error surfaced before packages of completely received packets ("+order+")", "%s: %d packages lie in completely received packets but only %d were delivered before the first error (%d more after it); %s", where, lower, nBefore, len(after), order)
 		}
